@@ -46,4 +46,9 @@ MUTANTS = [
  ("C11", "mean_not_nanmean", NV, "return np.repeat(np.nanmean(last_window), len(fh))", "return np.repeat(np.mean(last_window), len(fh))"),
  ("C11", "statsmodels_first_steps", SM, "        return y_pred.loc[fh.to_absolute(self.cutoff).to_pandas()]", "        out = y_pred.iloc[: len(fh)]\n        out.index = fh.to_absolute(self.cutoff).to_pandas()\n        return out"),
  ("C11", "expsmooth_drops_damped", "sktime/forecasting/exp_smoothing.py", "damped_trend=self.damped_trend,", "damped_trend=self.damped_trend and self.seasonal is None,"),
+ ("C03", "abs_from_cutoff_plus1", SK, "        index = fh.to_absolute(self.cutoff)\n        return pd.Series(y_pred, index=index)", "        index = fh.to_absolute(self.cutoff + 1)\n        return pd.Series(y_pred, index=index)"),
+ ("C03", "cutoff_not_moved_on_update", SK, "            # set cutoff to the end of the observation horizon\n            self._set_cutoff(y.index[-1])", "            # set cutoff to the end of the observation horizon\n            self._set_cutoff(max(self._cutoff, y.index[-2]) if len(y) > 1 else y.index[-1])"),
+ ("C03", "trend_abs_int_from_zero", TR, "fh = self.fh.to_absolute_int(self._y.index[0], self.cutoff)", "fh = self.fh.to_absolute_int(0, self.cutoff)"),
+ ("C03", "ensemble_resets_index", "sktime/forecasting/compose/_ensemble.py", "        y_pred = pd.concat(self._predict_forecasters(fh, X), axis=1)", "        y_pred = pd.concat([p.reset_index(drop=True) for p in self._predict_forecasters(fh, X)], axis=1)"),
+ ("C05", "recursive_indexer_shift", R, "        fh_idx = fh.to_indexer(self.cutoff)\n        return y_pred[fh_idx]", "        fh_idx = fh.to_indexer(self.cutoff)\n        return y_pred[fh_idx - (fh_idx[0] > 0)]"),
 ]
